@@ -271,6 +271,17 @@ class C07:
                     results["resumed after interruption"] = res_d
                     if res_d is not None:
                         results["from_file(resumed)"] = guarded("Result.from_file(resumed)", lambda: Result.from_file(fd))
+            # (e) the .gz file interrupted inside a gzip member (torn tail) and resumed: the repair path rewrites a gz file
+            if res_c is not None and cfg.get("torn_cut"):
+                gz = open(fc, "rb").read()
+                fe = os.path.join(tmp, "e.log.gz")
+                with open(fe, "wb") as f:
+                    f.write(gz[:max(1, int(len(gz) * (0.15 + 0.8 * cfg["cut"])))])
+                out["counters"]["fault.crash_inside_gz_member"] = 1
+                res_e = guarded("resumed run (.gz, torn member)", lambda: X.run_inproc(spec, result_file=fe)[0])
+                results["resumed after interruption (.gz)"] = res_e
+                if res_e is not None:
+                    results["from_file(resumed .gz)"] = guarded("Result.from_file(resumed .gz)", lambda: Result.from_file(fe))
             for label, r in results.items():
                 if r is None:
                     continue
